@@ -37,6 +37,7 @@ type gcCase struct {
 	ProviderFail bool
 	Nodes        []gcNode
 	NodeFail     []string
+	FailKind     string // error kind of the failing list calls: "" = err | nf | conflict
 }
 
 func doGC(c *kit.Ctx, x gcCase) {
@@ -44,11 +45,20 @@ func doGC(c *kit.Ctx, x gcCase) {
 	sort.Slice(x.Claims, func(i, j int) bool { return x.Claims[i].Name < x.Claims[j].Name })
 	sort.Slice(x.Nodes, func(i, j int) bool { return x.Nodes[i].Name < x.Nodes[j].Name })
 	var rules []rule
+	kind := x.FailKind
+	if kind == "" {
+		kind = "err"
+	}
 	if x.ClaimsFail {
-		rules = append(rules, rule{"list", "NodeClaim", "", -1, "err"})
+		rules = append(rules, rule{"list", "NodeClaim", "", -1, kind})
 	}
 	for _, p := range x.NodeFail {
-		rules = append(rules, rule{"list", "Node", "spec.providerID=" + p, -1, "err"})
+		rules = append(rules, rule{"list", "Node", "spec.providerID=" + p, -1, kind})
+	}
+	d := decorFor(c)
+	rules = d.rules(rules)
+	if x.ClaimsFail || len(x.NodeFail) > 0 {
+		c.Count("gc:list-fault-kind=" + kind)
 	}
 	for _, cl := range x.Claims {
 		if cl.DelF != "" {
@@ -70,6 +80,8 @@ func doGC(c *kit.Ctx, x gcCase) {
 		if cl.Deleting {
 			nc.Finalizers = []string{v1.TerminationFinalizer}
 		}
+		d.claim(nc)
+		d.pods(w, "node-of-"+cl.Name)
 		w.add(nc)
 		if cl.Deleting {
 			deleting = append(deleting, nc)
@@ -222,10 +234,16 @@ func runGC(c *kit.Ctx) {
 	for _, reg := range regs {
 		for _, deleting := range []bool{false, true} {
 			for _, listed := range []string{"no", "live", "terminating"} {
-				for _, ns := range nodeStates {
+				for si, ns := range nodeStates {
 					for _, nf := range []bool{false, true} {
-						for _, df := range dels {
+						for di, df := range dels {
+							if deleting && !c.Thorough() && (si > 1 || di > 0) {
+								continue // a deleting claim is filtered before any lookup: two node states suffice
+							}
 							x := gcCase{Claims: []gcClaim{{"a", true, reg, deleting, "p1", df}}}
+							if nf {
+								x.FailKind = []string{"err", "nf", "conflict"}[(si+di)%3]
+							}
 							// another instance is always listed so that the provider list is not trivially empty
 							x.Insts = []gcInst{{"p9", false}}
 							switch listed {
@@ -263,6 +281,30 @@ func runGC(c *kit.Ctx) {
 		doGC(c, gcCase{Claims: []gcClaim{{"a", true, "Unknown", false, "p1", ""}}, NodeFail: fail})
 		doGC(c, gcCase{NodeFail: fail})
 	}
+	// error kinds of the two list calls; a NotFound from the Node list is still a failed lookup
+	for _, k := range []string{"nf", "conflict"} {
+		doGC(c, gcCase{Claims: []gcClaim{{"a", true, "True", false, "p1", ""}}, ClaimsFail: true, FailKind: k})
+		doGC(c, gcCase{Claims: []gcClaim{{"a", true, "True", false, "p1", ""}}, Nodes: []gcNode{{"n0", "p1", "False"}}, NodeFail: []string{"p1"}, FailKind: k})
+		doGC(c, gcCase{Claims: []gcClaim{{"a", true, "True", false, "p1", "conflict"}}, FailKind: k})
+	}
+	// more claims than ParallelizeUntil workers (20): every third one has a failing lookup, a Ready node or is listed
+	{
+		var x gcCase
+		for k := 0; k < 27; k++ {
+			pid := fmt.Sprintf("q%02d", k)
+			x.Claims = append(x.Claims, gcClaim{Name: fmt.Sprintf("c%02d", k), Managed: true, Registered: "True", PID: pid})
+			switch k % 4 {
+			case 1:
+				x.NodeFail = append(x.NodeFail, pid)
+			case 2:
+				x.Nodes = append(x.Nodes, gcNode{"n-" + pid, pid, "True"})
+			case 3:
+				x.Insts = append(x.Insts, gcInst{pid, false})
+			}
+		}
+		c.Count("gc:more-claims-than-workers")
+		doGC(c, x)
+	}
 	// the history of F3 (fixed by 85caa9282): registered, not listed, node present but the lookup fails
 	doGC(c, gcCase{Claims: []gcClaim{{"a", true, "True", false, "p1", ""}}, Nodes: []gcNode{{"n0", "p1", "True"}}, NodeFail: []string{"p1"}})
 
@@ -285,7 +327,7 @@ func runGC(c *kit.Ctx) {
 				cl.PID = ""
 			}
 			if r.Chance(1, 5) {
-				cl.DelF = kit.Pick(r, []string{"nf", "err"})
+				cl.DelF = kit.Pick(r, []string{"nf", "err", "conflict"})
 			}
 			x.Claims = append(x.Claims, cl)
 		}
@@ -303,6 +345,7 @@ func runGC(c *kit.Ctx) {
 		}
 		x.ClaimsFail = r.Chance(1, 25)
 		x.ProviderFail = r.Chance(1, 25)
+		x.FailKind = kit.Pick(r, []string{"", "", "nf", "conflict"})
 		doGC(c, x)
 	}
 }
